@@ -225,7 +225,12 @@ PROPS = {
     "C05": simprop(scenarios.c05, ["C01", "C05", "C06"], {"frag": 100, "take": 20, "final": 20, "faults": 5}),
     "C03": simprop(scenarios.c03, ["C01", "C03", "C06"], {"waitacks": 30, "data": 50, "faults": 10}),
     "C04": simprop(scenarios.c04, ["C01", "C04", "C06"], {"waithist": 10, "data": 50, "gap": 5, "final": 30}),
-    "C27": simprop(scenarios.c27, ["C01", "C27", "C31", "C06"], {"blockedwrite": 20, "data": 50}),
+    "C27": combine(simprop(scenarios.c27, ["C01", "C27", "C31", "C06"], {"blockedwrite": 20, "data": 50}),
+                   # which changes count as acknowledged (what a KEEP_LAST write may replace): the stateful writer driven directly,
+                   # including ACKNACKs addressed to a sibling writer of the participant, from unknown / best-effort readers, stale counts
+                   graphprop("WriterAcks", "WriterAcks", ["MC_WriterAcks.cfg"],
+                             ["acknack:taken", "acknack:for-sibling-writer", "acknack:from-unmatched-reader", "acknack:from-best-effort-reader", "acknack:stale-count"],
+                             "RtpsStatefulWriter driven through its public (doc-hidden) API with a null transport and a fixed clock")),
     "C29": simprop(scenarios.c29, ["C01", "C29", "C06"], {"data": 30, "final": 30}),
     "C16": simprop(scenarios.c16, ["C16", "C06"], {"pubstatus": 30, "substatus": 20, "unmatch": 10}, spec="Trace_Discovery",
                    mc=None, norm=tracenorm.normalise_discovery),
